@@ -31,3 +31,7 @@ def run(tier):
         "a request left queued when the substitution limit is hit is counted, not judged (the statement only bounds the rounds); such states are not expanded",
     ]
     return chk
+
+
+def replay(path):
+    return en.replay(path)
